@@ -9,7 +9,8 @@ pub const VARS: [&str; 8] = ["A", "B", "C", "D", "P", "Q", "X1", "ZZ"];
 pub const LOOPV: [&str; 6] = ["I", "J", "K", "L", "M", "N"];
 pub const WHILEV: [&str; 4] = ["W1", "W2", "W3", "W4"];
 pub const FNS: [&str; 3] = ["FNA", "FNB", "FNC"];
-pub const PARAMS: [&str; 3] = ["X", "Y", "A"];
+/// (the first parameter is a Double: parameters of every type are local)
+pub const PARAMS: [&str; 3] = ["X#", "Y", "A"];
 /// array names: two are also FN parameter names, one is also a scalar
 pub const ARRS: [&str; 4] = ["X", "A", "T1", "Y"];
 pub const SVARS: [&str; 3] = ["A$", "S$", "T9$"];
@@ -230,6 +231,10 @@ impl<'a> G<'a> {
             ]);
             return E::Lit(t, v);
         }
+        if self.o.func && params.is_empty() && self.rng.chance(1, 10) {
+            // a program variable called like a parameter of the functions
+            return E::V(self.rng.pick(&PARAMS[..2]).to_string());
+        }
         match self.rng.usize(5) {
             0 | 1 => E::N(self.rng.range(0, 9)),
             2 => E::N(self.rng.range(-3, 20)),
@@ -335,6 +340,7 @@ impl<'a> G<'a> {
             let (a, b) = (self.target(false), self.target(false));
             return St::Swap(a, b);
         }
+        let v = if self.o.func && self.rng.chance(1, 10) { self.rng.pick(&PARAMS[..2]).to_string() } else { v };
         St::Let(v, e, self.rng.chance(1, 5))
     }
 
